@@ -75,11 +75,15 @@ func (c *ctx) envelopeUnits() []*unit {
 			if k.typ() == "secp256k1" {
 				cost = 80
 			}
-			us = append(us, &unit{c: c, id: "env/bytes/" + k.name + "/" + kind, cost: cost, fn: func(u *unit) {
-				if f := mk(u); f != nil {
-					c.envByteEdits(u, f)
-				}
-			}})
+			nsh := c.shards(k)
+			for sh := 0; sh < nsh; sh++ {
+				sh := sh
+				us = append(us, &unit{c: c, id: fmt.Sprintf("env/bytes/%s/%s/s%dof%d", k.name, kind, sh, nsh), cost: cost, fn: func(u *unit) {
+					if f := mk(u); f != nil {
+						c.envByteEdits(u, f, sh, nsh)
+					}
+				}})
+			}
 			us = append(us, &unit{c: c, id: "env/fields/" + k.name + "/" + kind, cost: 10, fn: func(u *unit) {
 				if f := mk(u); f != nil {
 					c.envFieldEdits(u, f)
@@ -105,14 +109,14 @@ func (c *ctx) afterAccept(u *unit, f *envFamily, env *record.Envelope, what stri
 }
 
 // every single-byte edit, truncation, insertion and removal of the sealed bytes
-func (c *ctx) envByteEdits(u *unit, f *envFamily) {
+func (c *ctx) envByteEdits(u *unit, f *envFamily, sh, nsh int) {
 	s := f.main
 	// sanity: the unedited envelope is accepted by both consumers with the sealed content
 	if _, ok := u.consumeAndJudge(s.bytes, s.domain, s.kind, f.set(), "none", nil); !ok {
 		c.r.Inconclusive(u.id, "unedited envelope not accepted")
 		return
 	}
-	byteEdits(s.bytes, c.all, func(e edit, b []byte) bool {
+	byteEdits(s.bytes, c.all, sh, nsh, func(e edit, b []byte) bool {
 		env, _ := u.consumeAndJudge(b, s.domain, s.kind, f.set(), e.Kind, e)
 		if env != nil {
 			u.count("env_byte_edit_accepted_as_reencoding", 1)
@@ -120,7 +124,7 @@ func (c *ctx) envByteEdits(u *unit, f *envFamily) {
 		}
 		return !u.stop()
 	})
-	if s.signer.name == "ed25519-0" && s.kind == "peerrec" {
+	if s.signer.name == "ed25519-0" && s.kind == "peerrec" && sh == 0 {
 		c.r.Sample(map[string]any{"kind": "sealed peer record, every byte edited", "signer": s.signer.name, "domain": s.domain, "payload_type": hx(s.ptype),
 			"envelope": hx(s.bytes), "edits": u.evals / 2})
 	}
